@@ -69,7 +69,7 @@ def gen_cases(tier, seed):
                     yield {"w": "dense", "shape": shape, "groups": groups, "kind": kind, "shuffle_groups": bool(rng.integers(0, 2)),
                            "cseed": int(seed) * 141650939 % (2 ** 31) + next(cs)}
                 # value classes: stored element types whose own arithmetic saturates / wraps (masks, narrow integers), and infinite entries
-                for vals in ("bool", "int8", "uint8", "int32", "inf", "-inf"):
+                for vals in ("bool", "int8", "uint8", "int32", "inf", "-inf", "nan", "inf-mixed"):
                     for kind in ("generic", "symmetric"):
                         yield {"w": "dense", "shape": shape, "groups": groups, "kind": kind, "shuffle_groups": bool(rng.integers(0, 2)), "vals": vals,
                                "cseed": int(seed) * 141650939 % (2 ** 31) + next(cs)}
@@ -210,9 +210,23 @@ def run_case(case, ctx):
                 for i_, m in enumerate(g):
                     q[m] = pos[g[pm[i_]]]
             Astored[tuple(q)] = np.inf if vals == "inf" else -np.inf
+    elif vals in ("nan", "inf-mixed"):
+        # a class of positions whose average is not a number: one NaN member, or members +inf and -inf.  The average over the
+        # within-group permutations is NaN on that whole class and nowhere else; the symmetry test is not asked (NaN != NaN)
+        Astored = A.copy()
+        gsz = [g_ for g_ in groups if len(g_) >= 2 and shape[g_[0]] >= 2]
+        if gsz:
+            g_ = gsz[0]
+            pos = [int(rng.integers(0, s_)) for s_ in shape]
+            pos[g_[0]], pos[g_[1]] = 0, 1
+            Astored[tuple(pos)] = np.nan if vals == "nan" else np.inf
+            if vals == "inf-mixed":
+                pos[g_[0]], pos[g_[1]] = 1, 0
+                Astored[tuple(pos)] = -np.inf
     A = np.asarray(Astored, dtype=float)
     ctx.feat(vals=vals)
-    is_sym = refops.is_symmetric(A, groups)
+    nonnum = vals in ("nan", "inf-mixed")
+    is_sym = refops.is_symmetric(A, groups) and not nonnum
     full = (sorted(m for g in groups for m in g) == list(range(N))) and len(groups) == 1
     ctx.feat(N=N, ngroups=len(groups), glen=len(groups[0]), full_group=full, kind=case["kind"], proper_subgroup=not full)
     garg = np.array(groups[0]) if len(groups) == 1 else np.array(groups)
@@ -235,7 +249,7 @@ def run_case(case, ctx):
             ctx.check(close(S, A, tol=1e-14), op, "CHANGED-SYMMETRIC", "an already symmetric tensor changed its value", version=str(ver))
         # result passes the symmetry test, symmetrising again changes nothing
         r2 = ctx.call("tensor.issymmetric", r.value.issymmetric, garg.copy())
-        if r2.ok and ver is None:
+        if r2.ok and ver is None and not nonnum:
             ctx.check(bool(r2.value) is True, "tensor.issymmetric", "RESULT-NOT-SYMMETRIC", "the symmetrised tensor fails the symmetry test", version=str(ver))
         r3 = ctx.call(op, r.value.symmetrize, garg.copy(), **({} if ver is None else {"version": ver}))
         if r3.ok:
@@ -244,6 +258,9 @@ def run_case(case, ctx):
         ctx.check(close(results[None], results[1], tol=1e-12), "tensor.symmetrize", "VERSIONS-DISAGREE", "new and old symmetrize implementations disagree")
     # the symmetry test itself: all call forms against brute force
     answers = {}
+    if nonnum:
+        ctx.tag("not-a-number-class")
+        return
     for ver, det in ((None, False), (1, False), (None, True), (1, True)):
         op = "tensor.issymmetric"
         kw = {}
